@@ -19,7 +19,8 @@ CHECKS = {
     "C09": {"harnesses": [("harness.sessions", "C09_SessionRules")]},
     "C10": {"harnesses": [("harness.runs", "C10_RunnerBasics")]},
     "C11": {"harnesses": [("harness.runs", "C11_RunnerBasics")]},
-    "C12": {"harnesses": [("harness.fundamentals", "C12_LogReturns"), ("harness.fundamentals", "C12_Paths")]},
+    "C12": {"harnesses": [("harness.fundamentals", "C12_LogReturns"), ("harness.fundamentals", "C12_Paths"),
+                          ("harness.fundamentals", "C12_ConfiguredParameters")]},
     "C13": {"harnesses": [("harness.events", "C13_HookDispatch"), ("harness.events", "C13_HookValidation")]},
     "C14": {"harnesses": [("harness.events", "C14_FundamentalShock"), ("harness.events", "C14_MistakeShock")]},
     "C15": {"harnesses": [("harness.events", "C15_LimitRuleFn"), ("harness.events", "C15_LimitRuleRun")]},
@@ -79,7 +80,7 @@ META = {
                       "as C05."), "note": _N},
  "C11": {"level": _lv("callbacks of scripted agents compared with order objects, fill records and holdings at callback time.",
                       "as C05."), "note": _N},
- "C12": {"level": _lv("the real Fundamentals code on proxies through real NumPy object arrays; covariance and log-return identities as polynomial identities; paths across chunks, parameter changes and shocks.",
+ "C12": {"level": _lv("the real Fundamentals code on proxies through real NumPy object arrays; covariance and log-return identities as polynomial identities; paths across chunks, parameter changes and shocks; the parameters the runner registers per configured market group.",
                       "3 markets (thorough 4), chunk 2-3, horizon 7."), "note": _N + "; Cholesky, the normal sampler and exp are contract stubs: distributional statements hold under z ~ N(0,I) and L.L^T = cov"},
  "C13": {"level": _lv("a user event with solver-chosen hook specifications in a real run; invocations counted per occurrence.",
                       "<= 2 hooks per event, time lists of <= 2 entries (thorough 3) over [-1, T+1], T = 3 steps."), "note": _N},
